@@ -149,6 +149,10 @@ rt_full!(rt_full_ed, ED, 0, 32, 3);
 
 // @h rt_full_vec_u16 props=C01,C06,C07 tier=quick kind=bounded bound="len<=3" vars="v:Vec<u16>, pos0<16" fns="impls/vec.rs,ser/helpers.rs:serialize_slice_zero,deser/helpers.rs:deserialize_full_vec_zero"
 rt_full!(rt_full_vec_u16, Vec<u16>, 3, 48, 5);
+// elements whose unit (16) is wider than the length word: the gap after the length can be 8
+// (added after seed C01-R10: the writer padded such sequences to pointer width only)
+// @h rt_full_vec_u128 props=C01,C06,C07 tier=quick kind=bounded bound="len<=1" vars="v:Vec<u128>, pos0<16" fns="impls/vec.rs,ser/helpers.rs:serialize_slice_zero,deser/helpers.rs:deserialize_full_vec_zero"
+rt_full!(rt_full_vec_u128, Vec<u128>, 1, 64, 18);
 // @h rt_full_box_u32 props=C01,C06,C07 tier=thorough kind=bounded bound="len<=2" vars="v:Box<[u32]>, pos0<16" fns="impls/boxed_slice.rs"
 rt_full!(rt_full_box_u32, Box<[u32]>, 2, 48, 5);
 // @h rt_full_vec_opt_u8 props=C01,C06,C07 tier=thorough kind=bounded bound="len<=3" vars="v:Vec<Option<u8>>, pos0<16" fns="impls/vec.rs,ser/helpers.rs:serialize_slice_deep,deser/helpers.rs:deserialize_full_vec_deep"
